@@ -128,6 +128,8 @@ N_SPECIFIC = {
 }
 
 UNKNOWN_INTS = [0x0003, 0x1234, 0x0FFF, 0xD000, 0xFFFE, 0x00FF]
+# Warning-class codes of PS3.7 / other services (not in every service's documented table)
+FOREIGN_WARNINGS = [0x0001, 0x0107, 0x0116, 0xB000, 0xB001, 0xB006, 0xB300]
 OUT_OF_RANGE_INTS = [-1, -0x8000, 0x10000, 70000, 2 ** 32]
 
 _S = {}
@@ -253,8 +255,12 @@ def canon(ds):
                 val = bytes(v).hex()
             elif isinstance(v, (list, tuple)) or type(v).__name__ == "MultiValue":
                 val = [str(x) for x in v]
+                if len(val) == 0:
+                    val = ""
+                elif len(val) == 1:
+                    val = val[0]
             else:
-                val = str(v)
+                val = "" if v is None else str(v)
         out.append([int(elem.tag), elem.VR, val])
     return out
 
@@ -470,7 +476,7 @@ def make_handler(case, log, dest_port):
                     yield build_dest(st["dest"], dest_port)
                 else:
                     s = build_status(st["s"])
-                    d, _ = build_dataset(st["d"], case["ts"])
+                    d, _ = build_dataset(st["d"], "implicit" if dimse == "C-MOVE" else case["ts"])
                     log.add("yield", i)
                     yield (s, d)
                 log.add("resumed", i)
@@ -728,7 +734,7 @@ def run_scenario(case):
                 supported.append(dict(abstract_syntax=uid, transfer_syntax=all_ts, scu_role=True, scp_role=True))
             else:
                 supported.append((uid, all_ts))
-        ae = harness.make_ae("VERIF-SCP", timeouts=TIMEOUTS, supported=supported, requested=[(CT, all_ts)])
+        ae = harness.make_ae("VERIF-SCP", timeouts=TIMEOUTS, supported=supported, requested=[(CT, [TS["implicit"]])])
         handlers = [(getattr(evt, EVT_NAME[dimse]), make_handler(case, log, dest_port))]
         server, port = harness.start_server(ae, handlers)
 
@@ -894,6 +900,12 @@ def _pick_status(rng, fam, dimse, weights=None):
     classes = ["success", "failure", "warning", "cancel", "pending", "unknown", "range", "ds", "ds-extra", "ds-nostatus", "bad"]
     w = weights or [3, 3, 2, 1, 4, 1, 1, 2, 2, 1, 1]
     c = rng.choices(classes, w)[0]
+    r = rng.random()
+    if r < 0.06:
+        return {"t": "int", "v": rng.choice(FOREIGN_WARNINGS)}
+    if r < 0.075:
+        cat = rng.choice([k for k in ("success", "failure", "pending") if fam.get(k)])
+        return {"t": "ds", "v": rng.choice(fam[cat]), "x": {"MessageIDBeingRespondedTo": rng.choice([1, 4242])}}
 
     def code_of(cat):
         pool = fam.get(cat) or []
@@ -984,35 +996,38 @@ def _gen_retrieve_handler(rng, fam, dimse, focus):
     """-> (handler, subops, dest)"""
     r = rng.random()
     dest = "scp"
-    if r < 0.03:
+    f = 0.3 if focus == "retrieve" else 1.0     # C22 spends fewer cases on requests that never announce a count
+    if r < 0.03 * f:
         return {"kind": "raise"}, [], dest
-    if r < 0.06:
+    if r < 0.06 * f:
         return {"kind": "ret-raw", "raw": {"t": rng.choice(["none", "empty-list", "int", "str"])}}, [], dest
     steps = []
     if dimse == "C-MOVE":
         q = rng.random()
-        if q < 0.70:
+        if q < 1 - 0.30 * f:
             dest = rng.choice(["scp", "scp", "scp", "scp-kwargs"])
-        elif q < 0.78:
-            dest = rng.choice(["none", "none3"])
-        elif q < 0.84:
-            dest = "closed"
         else:
-            dest = rng.choice(["bad-none", "bad-str", "bad-int", "bad-tuple1", "bad-port", "bad-addr"])
+            q2 = rng.random()
+            if q2 < 0.27:
+                dest = rng.choice(["none", "none3"])
+            elif q2 < 0.47:
+                dest = "closed"
+            else:
+                dest = rng.choice(["bad-none", "bad-str", "bad-int", "bad-tuple1", "bad-port", "bad-addr"])
         q = rng.random()
-        if q < 0.04:
+        if q < 0.04 * f:
             steps.append({"raise": 1})
             return {"kind": "gen", "steps": steps, "end": "stop"}, [], dest
-        if q < 0.07:
+        if q < 0.07 * f:
             return {"kind": "gen", "steps": [], "end": "stop"}, [], dest
         steps.append({"dest": dest})
     q = rng.random()
-    if q < 0.03:
+    if q < 0.03 * f:
         steps.append({"raise": 1})
         return {"kind": "gen", "steps": steps, "end": "stop"}, [], dest
-    if q < 0.05:
+    if q < 0.05 * f:
         return {"kind": "gen", "steps": steps, "end": "stop"}, [], dest
-    if q < 0.13:
+    if q < 0.13 * f:
         cnt = rng.choice([{"t": "none"}, {"t": "str"}, -1, -5, {"t": "list"}, {"t": "numstr"}, {"t": "float"}, {"t": "big"}])
     else:
         cnt = rng.choice([0, 1, 1, 2, 2, 3, 3, 4, 5])
@@ -1173,7 +1188,12 @@ def install_scp_tap():
 #   data=None (must be absent) | "any" | canonical list, counters=(rem, comp, fail, warn)|None, failed=[uids]|None,
 #   computed=bool (final status derived from the counters), built_list=bool (pynetdicom builds the failed list))
 
-QUIRKS = ("invalid-object-keeps-remaining", "explicit-success-never-all-failed")
+# Named quirks the reference walk can emulate (explain-by-quirk classification of C22 discrepancies):
+#   invalid-object-keeps-remaining: a yielded (Pending, <object that is no Dataset>) increments *failed* but does not
+#     consume one of the N announced sub-operations (remaining stays), so counters overshoot N, results beyond N are
+#     still processed, and the state "all N failed while remaining > 0" becomes reachable (there a handler-supplied
+#     Success gives 0xB000, end of results gives 0xA702 - both accepted under the quirk).
+QUIRKS = ("invalid-object-keeps-remaining",)
 
 
 def storage_outcome_class(out):
@@ -1207,7 +1227,7 @@ def model(case, quirks=frozenset()):
     dimse = svc["dimse"]
     fam = family_of(case["svc"])
     h = case["h"]
-    out = dict(skip=None, exp=[], disturbed=False, open=False, n=None, note=None)
+    out = dict(skip=None, exp=[], disturbed=False, open=False, n=None, note=None, subs=[], classes=set())
     exp = out["exp"]
     kind = h["kind"]
 
@@ -1309,6 +1329,13 @@ def model(case, quirks=frozenset()):
                         final({0x0000}, "relpat-single-match", computed=True)
                         return out
                     continue
+                if d["t"] == "empty":
+                    # an empty Dataset is a Dataset: delivered as such or refused as not encodable - both documented
+                    exp.append(dict(kind="pending", status=sset | set(fam["unenc"]), cls="empty-dataset", extras=None,
+                                    data="any", counters=None, failed=None))
+                    out["open"] = True
+                    out["note"] = "empty-identifier"
+                    return out
                 final(fam["unenc"], "unencodable-dataset")
                 exp[-1]["extras"] = None
                 return out
@@ -1407,8 +1434,10 @@ def model(case, quirks=frozenset()):
     def computed_final(cls, explicit_success=False):
         if fail == 0 and warn == 0:
             s = {0x0000}
-        elif fail == n and not (explicit_success and "explicit-success-never-all-failed" in quirks):
+        elif fail >= n:
             s = {0xA702}
+            if "invalid-object-keeps-remaining" in quirks and (explicit_success or fail > n):
+                s = {0xA702, 0xB000}
         else:
             s = {0xB000}
         final(s, cls, counters=(None, comp, fail, warn), failed=list(failed), computed=True,
@@ -1419,6 +1448,7 @@ def model(case, quirks=frozenset()):
             out["disturbed"] = True
             return out
         if rem <= 0:
+            out["classes"].add("more-than-announced")
             continue            # further results are ignored once the sub-operations are complete
         if "raise" in st_:
             final(fam["exc"], "handler-exception", counters=None, failed=list(failed), built_list=True, data="faillist")
@@ -1448,6 +1478,8 @@ def model(case, quirks=frozenset()):
                 else:
                     o = subops[n_sub] if n_sub < len(subops) else "ok"
                     n_sub += 1
+                    out["subs"].append(inst_uid(d.get("k", 0)))
+                    out["classes"].add("subop-" + (o if o in ("ok", "abort", "raise", "silent") else storage_outcome_class(o)))
                     cls_ = storage_outcome_class(o)
                     if o == "abort":
                         if is_move:
@@ -1467,11 +1499,13 @@ def model(case, quirks=frozenset()):
                     failed.append(inst_uid(d.get("k", 0)))
                 rem -= 1
             elif t in ("inst-nouid", "inst-noclass", "inst-nometa"):
+                out["classes"].add("unsendable-instance")
                 fail += 1
                 if t != "inst-nouid":
                     failed.append(inst_uid(d.get("k", 0)))
                 rem -= 1
             else:               # not a Dataset at all
+                out["classes"].add("invalid-object")
                 fail += 1
                 if "invalid-object-keeps-remaining" not in quirks:
                     rem -= 1
@@ -1488,6 +1522,8 @@ def model(case, quirks=frozenset()):
     if end_raise and rem > 0:
         final(fam["exc"], "handler-exception", counters=None, failed=list(failed), built_list=True, data="faillist")
         return out
+    if rem > 0:
+        out["classes"].add("fewer-than-announced")
     computed_final("exhausted")
     return out
 
